@@ -16,6 +16,7 @@ RULE = ("constructor: every dict over a non-empty subset of {0,1}^w with integer
         "distances: all ordered pairs of a pool of distributions (equal supports in different insertion orders included) x kernel widths: MMD symmetric, >= 0, "
         "0 on (p,p) and on equal copies; clipped NLL >= entropy - log(1+K eps); JS symmetric; save/load. non-trivial = at least two outcomes with different weights")
 RULE += ' Also: kernel widths as tuple / numpy array; tiny negative weights (-1e-13, -1e-15, -1e-300) must be rejected.'
+RULE += " Round 5: sparse distributions on 40-72 subsystems (marginals on all / the top four / every other subsystem); ragged keys whose lengths average to the first key's length, in every order."
 ASSUMPTIONS = ["float sums compared at 1e-12", "distances are only compared between distributions on the same number of subsystems"]
 BOUNDS = {"quick": {"w_ctor": 3, "w_marginal": 5, "pool": "80 + reordered/zero-key variants", "sigmas": 4}, "thorough": {"w_ctor": 3, "w_marginal": 6, "pool": "255 (weights 0..3 on 2 bits) + variants", "sigmas": 6}}
 TOL = 1e-12
